@@ -11,6 +11,34 @@ _MUST = ["rel_E1_perm_paths_checked", "rel_E2_rotate_start_checked", "rel_E3_dup
          "algebra_points_judged", "map_points_judged", "dup_vertices_inserted",
          "perm_scenes_with_several_paths_on_a_side"]
 
+# On the unchanged tree about one scene in 10^5 (only scenes with a horizontal input edge, i.e. small lattice-snapped
+# coordinates) violates the exact reversal claims in one narrow way: the two solutions consist of the same directed
+# edges, chained differently at a crossing that lies on a horizontal input edge (findings/c13_reverse_rechain_*.txt).
+# The class is narrow in *what* is observed, not in *why*: an edit to the hot/hot branch of IntersectEdges or to the
+# argument order in DoHorizontal produces more members of the same class (seeded edit `else if (true)`: ~20 per quick
+# run against 0..1). So that listing the class as a known finding cannot hide such a regression, its rate is compared
+# with a limit several times the pinned rate (thorough, seed 1: 9 in 716800 scenes).
+_CLASS = "same_edges_rechained_at_crossing_on_horizontal_input_edge"
+
+
+def _post(ctx):
+    scenes = ctx["counters"].get("scenes", 0)
+    n, example = 0, ""
+    for w in ctx["workers"]:
+        for r in (getattr(w, "all_records", None) or w.records()):
+            if r.get("t") == "violation" and _CLASS in r.get("tags", []):
+                n += 1
+                example = example or r.get("witness", "")
+    limit = max(4, int(1.0e-4 * scenes))
+    ctx["counters"]["violations_of_class_" + _CLASS] = n
+    ctx["counters"]["limit_for_class_" + _CLASS] = limit
+    if n > limit:
+        ctx["report"]("C13.rechain_rate", ["rate_above_pinned_baseline"], example,
+                      "%d violations of class %s in %d scenes; the pinned tree produces about 1.3 per 100000 scenes "
+                      "(limit %d): a change made this representation dependence several times more frequent"
+                      % (n, _CLASS, scenes, limit))
+
+
 PROP = {
     "level": "exploration",
     "level_text": ("Exploration: every run takes tens of thousands (quick) to about a million (thorough) generated general-position "
@@ -44,4 +72,5 @@ PROP = {
         {"mon": "mon_c13", "cfg": "plain", "cases": _q(12800, 448000)},
         {"mon": "mon_c13", "cfg": "hp", "cases": _q(7680, 268800), "seed_off": 1000003},
     ],
+    "post": _post,
 }
